@@ -666,4 +666,21 @@ Section GroupProofs2.
     rewrite firstn_app_exact by (rewrite map_length, seq_length; reflexivity).
     unfold spec_key_cols, spec_groups. apply map_ext. intros idx. rewrite map_map. reflexivity.
   Qed.
+
+  Theorem apply_call_log t over a ov bs raps :
+    resolve_args t over a = Ok (ov, bs) ->
+    Forall (fun c => List.length c = nrows t) ov ->
+    Forall (fun b => List.length (snd b) = nrows t) bs ->
+    apply_resolved t (nrows t) (apply_entries a) raps ->
+    let ks := row_keys ov (nrows t) in
+    snd (aggregate xeq xleb xz fmean fstdev F t over a)
+    = flat_map (fun entry =>
+                  map (fun k => (snd entry, gather (fst entry) (group_rows (keq xeq) ks k)))
+                      (first_keys (keq xeq) ks)) raps.
+  Proof.
+    intros H1 H2 H3 H4 ks.
+    rewrite (aggregate_refines X T xeq xleb xz fmean fstdev F xeq_refl xeq_sym xeq_trans
+               t over a ov bs raps H1 H2 H3 H4).
+    reflexivity.
+  Qed.
 End GroupProofs2.
